@@ -13,7 +13,7 @@ RULE = ("flat BSP decks with 0–3 surfaces flagged '*' (reflecting) or '+' (whi
         'ones, each entry designating a SURF of the file whose definition equals that of the flagged surface (reference '
         'definitions come from the --skip-deduplication output of the same deck), declared count right; a flag on a '
         'macrobody must be rejected. Non-trivial = deck has a flagged surface.')
-NOT_PROVED = []
+NOT_PROVED = ['that the emitted boundary entry designates the locus of the flagged MCNP surface: compared on each written file with the definition of the flagged surface in the --skip-deduplication output, no theorem']
 ASSUMPTIONS = ['flagged surfaces are single TRIPOLI-4 surfaces (planes, spheres, cylinders, quadrics, two-sheet cones)']
 
 
